@@ -3,6 +3,8 @@
     clippy::default_constructed_unit_structs,
     clippy::needless_lifetimes
 )]
+// the verification hook below uses a cfg that only /verif/shadow_ffi sets
+#![allow(unexpected_cfgs)]
 
 pub(crate) use crate::tracing::*;
 pub(crate) use app_options::*;
@@ -87,3 +89,8 @@ impl From<RuntimeError> for crate::ffi::ParamError {
         }
     }
 }
+
+/// verification harness (only compiled when the `stepfunc_dnp3_verif` cfg is set by /verif/shadow_ffi)
+#[cfg(stepfunc_dnp3_verif)]
+#[path = "/verif/harness_ffi/mod.rs"]
+pub mod verif;
